@@ -68,7 +68,7 @@ type vsConc struct {
 	DType    int   `json:"dtype"`    // 0: int64, 1: float32, 2: uint8, 3: float64
 	VType    int   `json:"vtype"`    // 0: string, 1: json, 2: bytes
 	FileCap  int64 `json:"filecap"`  // 0: default 1 GB; else bytes
-	Persist  int   `json:"persist"`  // 0: always persist index on auto commit, 1: default lazy (1 s), 2: 1 ms interval
+	Persist  int   `json:"persist"`  // 0: always persist index on auto commit, 1: default lazy (1 s), 2: 5 ms interval
 	GCThresh int   `json:"gcthresh"` // 0: tiny (always collect), 1: default
 	Iter     int   `json:"iter"`     // 0: DB.Read, 1: explicit iterator, fixed spans, 2: auto span
 	NoEmpty  bool  `json:"noempty"`  // never use zero-length variable samples (crash oracle needs identities)
@@ -264,7 +264,7 @@ func (r *vsRunner) exec(st vsStep) (string, error) {
 			cfg.AutoIndexPersistInterval = AlwaysIndexPersistOnAutoCommit
 		} else if r.c.Persist == 2 {
 			// some auto-commits persist the index, some do not, depending on wall-clock
-			cfg.AutoIndexPersistInterval = 1 * telem.Millisecond
+			cfg.AutoIndexPersistInterval = 5 * telem.Millisecond
 		}
 		w, err := r.db.OpenWriter(ctx, cfg)
 		if err != nil {
